@@ -368,7 +368,9 @@ inline void write_hashes(std::string const& path, std::unordered_set<uint64_t> c
     std::sort(v.begin(), v.end());
     FILE* f = std::fopen(path.c_str(), "wb");
     if (f != nullptr) {
-        std::fwrite(v.data(), sizeof(uint64_t), v.size(), f);
+        if (!v.empty()) {
+            std::fwrite(v.data(), sizeof(uint64_t), v.size(), f);
+        }
         std::fclose(f);
     }
 }
